@@ -70,11 +70,22 @@ func evalRecorded(c vcase) string {
 	crashed, _ := kit.Guard(func() {
 		r := run.VerifResultFrom(c.opts(), errsN(c.nerrs), progress.Snapshot{})
 		st := r.VerifStats()
+		// every fourth case records iterations that took no measurable time (a coarse clock): they
+		// count all the same
+		zero := (c.s+c.f+c.d)%4 == 1
 		for i := uint64(0); i < c.s; i++ {
-			st.Record(metrics.SuccessResult, int64(1000+i))
+			d := int64(1000 + i)
+			if zero {
+				d = 0
+			}
+			st.Record(metrics.SuccessResult, d)
 		}
 		for i := uint64(0); i < c.f; i++ {
-			st.Record(metrics.FailedResult, int64(2000+i))
+			d := int64(2000 + i)
+			if zero {
+				d = 0
+			}
+			st.Record(metrics.FailedResult, d)
 		}
 		for i := uint64(0); i < c.d; i++ {
 			st.Record(metrics.DroppedResult, 0)
